@@ -93,7 +93,7 @@ class FluxBinner(Binner):
         bin_spectrum = np.zeros(spectrum[..., 0].shape + self._wngrid.shape)
 
         if error is not None:
-            bin_error = np.zeros(spectrum[..., 0].shape + self._wngrid.shape)
+            bin_error = np.zeros(error[..., 0].shape + self._wngrid.shape)
         else:
             bin_error = None
 
@@ -155,14 +155,14 @@ class FluxBinner(Binner):
             if error is not None:
                 sum_noise = np.sum(weight * weight *
                                    old_spect_err[..., save_start:save_stop+1]**2,
-                                   axis=0)
+                                   axis=-1)
 
                 sum_noise = np.sqrt(sum_noise / sum_weight/sum_weight)
 
             bin_spectrum[..., idx] = sum_spectrum
 
             if error is not None:
-                bin_error[idx] = sum_noise
+                bin_error[..., idx] = sum_noise
 
         return self._wngrid, bin_spectrum, bin_error, self._wngrid_width
 
